@@ -135,15 +135,20 @@ CLAIMS = {
             "abstract interpretation per operation vs reference model + who-may-write rule",
             "A+B", "DESIGN.md section 4, C13"),
     "C14": ("other",
-            "Structural/effect analysis of ProtocolEnumMeta.__call__: the member lookup is delegated to EnumType.__call__ "
-            "inside a try catching ValueError (or is a None-tested member-table lookup), binds against the running "
-            "interpreter's signature, its result is returned unmodified; the fallback is int.__new__(cls, value) named "
-            "Unrecognized(int(value)) with _value_ = value; no member table is written and nothing is cached across enum "
-            "types; members are never tested by truthiness; generated enums are IntEnum classes with this metaclass. "
-            "Does NOT decide stdlib semantics (EnumType.__call__ behaviour, int equality/hash).",
-            "Trusted: enum.py of the running interpreter, engine A. Unknown state-keeping idioms give ANALYSIS-ERROR.",
-            "AST effect/ownership rules on one method + signature binding against parsed stdlib source",
-            "A", "DESIGN.md section 4, C14"),
+            "Effect interpretation of ProtocolEnumMeta.__call__ (helpers inlined) over abstract objects -- the enum class with "
+            "its member tables and the metaclass's shared containers, an arbitrary integer that is or is not a declared ordinal, "
+            "the stdlib lookup as 'declared member token or ValueError', int.__new__ as a fresh recording object: on every path "
+            "an undeclared ordinal never raises and yields int.__new__(cls, value) named Unrecognized(<value>) with _value_ = "
+            "value; a declared ordinal yields the member token itself (a truthiness test of it forks, ordinal 0 being falsy); "
+            "every super().__call__ binds against the running interpreter's signature; no member table is written and a shared "
+            "table is keyed by the class; generated enums (files of the abstractly executed generator) are IntEnum classes "
+            "with this metaclass and import both. Does NOT decide stdlib semantics (EnumType.__call__ behaviour, int "
+            "equality/hash).",
+            "Trusted: enum.py of the running interpreter, engines B and C. Attributes of the class outside the modelled ones "
+            "give ANALYSIS-ERROR.",
+            "abstract interpretation of one method over effect-recording objects + signature binding against parsed stdlib "
+            "source + engine-C generated-file inspection",
+            "B+C", "DESIGN.md section 4, C14"),
     "C15": ("proof",
             "The code generator is interpreted from its syntax trees over the lattice of instruction shapes x placements "
             "(abstract interpretation with symbolic spec text, the real CodeBlock included); every emitted "
